@@ -7,6 +7,7 @@ import (
 	"fmt"
 	"sort"
 	"sync"
+	"sync/atomic"
 	"time"
 
 	"github.com/Tom-Johnston/mamba/graph"
@@ -29,6 +30,19 @@ func computeInvC09(m *MG) *invC09 {
 	for k := 0; k <= m.n; k++ {
 		iv.colourings = append(iv.colourings, refCountColourings(m, k))
 	}
+	return iv
+}
+
+// computeInvC09Light: the invariants that stay cheap at n = 8 (no colouring counts; the chromatic index from the
+// direct edge-colouring search instead of colouring the line graph).
+func computeInvC09Light(m *MG) *invC09 {
+	iv := &invC09{}
+	iv.clique = refCliqueNumber(m)
+	iv.indep = refIndependenceNumber(m)
+	iv.maxCliques = len(refMaximalCliques(m))
+	iv.chi = refChromaticNumber(m)
+	iv.chiIndex = refEdgeChromaticIndex(m)
+	iv.degen = refDegeneracy(m)
 	return iv
 }
 
@@ -77,7 +91,11 @@ func evalC09(gc giCase, iv *invC09) *Failure {
 	n, mask, rep := gc.N, gc.Mask, gc.Rep
 	m := mgFromMask(n, mask)
 	if iv == nil {
-		iv = computeInvC09(m)
+		if n >= 8 {
+			iv = computeInvC09Light(m)
+		} else {
+			iv = computeInvC09(m)
+		}
 	}
 	mk := func(fn, cl, what string) *Failure {
 		sfx := ""
@@ -262,7 +280,7 @@ func evalC09(gc giCase, iv *invC09) *Failure {
 	if !ok {
 		return f
 	}
-	if eg, isE := g.(graph.EditableGraph); isE {
+	if eg, isE := g.(graph.EditableGraph); isE && iv.colourings != nil {
 		if !run("ChromaticPolynomial", func() *Failure {
 			before := mgFromGraph(eg)
 			poly := graph.ChromaticPolynomial(eg)
@@ -468,9 +486,41 @@ func runC09(c *Ctx) {
 			c.Check(func() *Failure { return evalIsProper(ic) })
 		}
 	}
+	{
+		// one representative of every isomorphism class on 8 vertices (12346), alternately dense and sparse and under a
+		// reversal or rotation of the labels: everything but the chromatic polynomial against the references
+		reps8 := classReps(8) // the library's own search as input generator (its output is established by C01/C03)
+		if len(reps8) != 12346 {
+			c.HarnessError("search.All(8) produced %d graphs (used as input generator)", len(reps8))
+			reps8 = nil
+		}
+		perms := relabelBattery(8, false, 0)
+		var n8 int64
+		c.parFor(int64(len(reps8)), 16, func(lo, hi int64) {
+			for i := lo; i < hi; i++ {
+				r := reps8[i]
+				iv := computeInvC09Light(mgFromMask(8, r))
+				mask, rep := r, "dense"
+				switch i % 3 {
+				case 1:
+					mask, rep = permuteMask(8, r, perms[0]), "sparse"
+				case 2:
+					mask = permuteMask(8, r, perms[len(perms)-1])
+				}
+				gc := giCase{N: 8, Mask: mask, G6: g6(8, mask), Rep: rep}
+				c.CheckTimed(120*time.Second, func() *Failure { return evalC09(gc, iv) }, func() *Failure {
+					return &Failure{Class: "invariants/does-not-terminate", What: fmt.Sprintf("%s %s: no answer within 120s", rep, gc.G6), Kind: "c09", Replay: gc}
+				})
+				atomic.AddInt64(&n8, 1)
+				c.Nontrivial(1)
+			}
+		})
+		c.SetCount("class_representatives_n8", n8)
+	}
 	c09Large(c)
 	c09Wide(c)
 	c09Families(c)
+	c09Irregular(c)
 	// the view representations stay live: query, edit the underlying graph, query again
 	var vcs []viewCase
 	for n := 3; n <= 5; n++ {
@@ -550,6 +600,10 @@ func replayC09(kind string, raw json.RawMessage) *Failure {
 		var fc c09FamCase
 		json.Unmarshal(raw, &fc)
 		return evalC09Fam(fc)
+	case "c09-irregular":
+		var ic c09IrrCase
+		json.Unmarshal(raw, &ic)
+		return evalC09Irr(ic)
 	case "c09-wide":
 		var wc c09WideCase
 		json.Unmarshal(raw, &wc)
